@@ -32,6 +32,24 @@ Theorem transform_kernel : forall n indptr indices ids md outs data,
 Proof. intros n indptr indices ids md outs data HP HO. exact (kernel_spec n indptr ids md outs data HP HO indices). Qed.
 Print Assumptions transform_kernel.
 
+(* The content-level model below is the denotation of the kernel: with
+     lay i    = indices[indptr[i]:indptr[i+1]]          (the stored positions of vector i)
+     denote d i = the dense vector that segment i of the value array d stands for
+   the function receives  gather (lay i) (denote data i)  and afterwards segment i stands for
+   scatter (lay i) (its result): the per-vector definition of transform_table. *)
+Theorem kernel_denotes_transform : forall n indptr indices ids md outs data minor,
+  ptr_wf n indptr (length data) -> outs_fit_ptr n indptr outs -> length indices = length data ->
+  let lay i := slice indices (nth i indptr 0) (nth (S i) indptr 0) in
+  let denote (d : list Z) i := scatter 0%Z minor (lay i) (slice d (nth i indptr 0) (nth (S i) indptr 0)) in
+  forall i, i < n -> NoDup (lay i) -> (forall j, In j (lay i) -> j < minor) ->
+    fst (fst (nth i (snd (kernel n indptr ids md outs data)) ([], 0%Z, None))) = gather 0%Z (lay i) (denote data i) /\
+    denote (fst (kernel n indptr ids md outs data)) i = scatter 0%Z minor (lay i) (nth i outs []).
+Proof.
+  intros n indptr indices ids md outs data minor HP HO HL lay denote i Hi Hn Hb.
+  exact (kernel_denotes n indptr ids md outs data HP HO indices minor i Hi Hn Hb HL).
+Qed.
+Print Assumptions kernel_denotes_transform.
+
 (* Table.transform, for every layout without stored zeros and every length-preserving function:
    it is called with exactly the stored (= non-zero) values of each vector, its id and metadata;
    zero cells stay zero; the number of non-zero cells does not grow; every non-zero cell holds the
